@@ -27,10 +27,10 @@ func init() {
 			return t
 		},
 		rtPkg + ".U8":  func(p *Path, _ *ssa.Function, _ []Value) Value { return p.freshIn("u8", 8) },
-		rtPkg + ".U16": func(p *Path, _ *ssa.Function, _ []Value) Value { return p.freshIn("u16", 16) },
-		rtPkg + ".U32": func(p *Path, _ *ssa.Function, _ []Value) Value { return p.freshIn("u32", 32) },
-		rtPkg + ".U64": func(p *Path, _ *ssa.Function, _ []Value) Value { return p.freshIn("u64", 64) },
-		rtPkg + ".Int": func(p *Path, _ *ssa.Function, _ []Value) Value { return p.freshIn("int", 64) },
+		rtPkg + ".U16": func(p *Path, _ *ssa.Function, _ []Value) Value { return p.freshInS("u16", 16, false) },
+		rtPkg + ".U32": func(p *Path, _ *ssa.Function, _ []Value) Value { return p.freshInS("u32", 32, false) },
+		rtPkg + ".U64": func(p *Path, _ *ssa.Function, _ []Value) Value { return p.freshInS("u64", 64, false) },
+		rtPkg + ".Int": func(p *Path, _ *ssa.Function, _ []Value) Value { return p.freshInS("int", 64, true) },
 		rtPkg + ".Bytes": func(p *Path, _ *ssa.Function, a []Value) Value {
 			n := int(p.concretize(a[0].(*Term), "Bytes(n)"))
 			return p.freshBytes(n)
@@ -43,7 +43,7 @@ func init() {
 		},
 		rtPkg + ".BigInt": func(p *Path, _ *ssa.Function, a []Value) Value {
 			// BigInt(maxBytes): fresh integer 0 <= x < 256^maxBytes (maxBytes<=0: any non-negative)
-			n := a[0].(*Term).Signed().Int64()
+			n := termInt64(a[0].(*Term))
 			t := p.fresh("in", SInt)
 			p.addInput("big", "", t)
 			p.assertPC(p.tb.ILe(p.tb.Int(0), t))
@@ -62,10 +62,10 @@ func init() {
 			return Ptr(cell)
 		},
 		rtPkg + ".Choose": func(p *Path, _ *ssa.Function, a []Value) Value {
-			lo, hi := int(a[0].(*Term).Signed().Int64()), int(a[1].(*Term).Signed().Int64())
+			lo, hi := int(termInt64(a[0].(*Term))), int(termInt64(a[1].(*Term)))
 			v := p.choose(lo, hi)
 			p.inputs = append(p.inputs, InputRec{Kind: "choose", Conc: int64(v)})
-			return p.tb.BVI(int64(v), 64)
+			return p.ic(int64(v), 64)
 		},
 		rtPkg + ".Assume": func(p *Path, _ *ssa.Function, a []Value) Value {
 			c := a[0].(*Term)
@@ -95,14 +95,14 @@ func init() {
 			p.covers = append(p.covers, lbl)
 			return nil
 		},
-		rtPkg + ".Tier":      func(p *Path, _ *ssa.Function, _ []Value) Value { return p.tb.BVI(int64(p.e.cfg.Tier), 64) },
+		rtPkg + ".Tier":      func(p *Path, _ *ssa.Function, _ []Value) Value { return p.ic(int64(p.e.cfg.Tier), 64) },
 		rtPkg + ".Replaying": func(p *Path, _ *ssa.Function, _ []Value) Value { return p.tb.False },
 		rtPkg + ".Catch": func(p *Path, _ *ssa.Function, a []Value) Value {
 			return p.catch(a[0])
 		},
 		rtPkg + ".UFBytes": func(p *Path, _ *ssa.Function, a []Value) Value {
 			name, _ := a[0].(Str).concrete()
-			n := int(a[1].(*Term).Signed().Int64())
+			n := int(termInt64(a[1].(*Term)))
 			return p.ufBytes(name, n, a[2].(Slice))
 		},
 		rtPkg + ".UFBool": func(p *Path, _ *ssa.Function, a []Value) Value {
@@ -113,7 +113,7 @@ func init() {
 		rtPkg + ".Concrete": func(p *Path, _ *ssa.Function, a []Value) Value {
 			// Concrete(x uint64, max int) uint64: fork over feasible values of x
 			v := p.concretize(a[0].(*Term), "Concrete")
-			return p.tb.BV(v, 64)
+			return p.i64(v)
 		},
 		rtPkg + ".Log": func(p *Path, _ *ssa.Function, a []Value) Value {
 			tag, _ := a[0].(Str).concrete()
@@ -127,7 +127,7 @@ func init() {
 			return p.tb.Ite(a[0].(*Term), a[1].(*Term), a[2].(*Term))
 		},
 		rtPkg + ".MakeCap": func(p *Path, _ *ssa.Function, a []Value) Value {
-			p.makeCap = int(a[0].(*Term).Signed().Int64())
+			p.makeCap = int(termInt64(a[0].(*Term)))
 			return nil
 		},
 		rtPkg + ".Observe": func(p *Path, _ *ssa.Function, a []Value) Value {
@@ -148,6 +148,9 @@ func init() {
 		},
 		"bytes.Compare": func(p *Path, _ *ssa.Function, a []Value) Value {
 			c := p.bytesCompare(termsOf(a[0].(Slice)), termsOf(a[1].(Slice)))
+			if p.intW(64) {
+				return p.int64ToInt(c, true)
+			}
 			return p.tb.Sext(c, 56)
 		},
 		"bytes.Clone": func(p *Path, _ *ssa.Function, a []Value) Value {
@@ -211,8 +214,12 @@ func init() {
 		"github.com/MixinNetwork/mixin/crypto.Blake3Hash": func(p *Path, _ *ssa.Function, a []Value) Value {
 			return Array(p.hashUF("blake3", a[0].(Slice), 32, func(b []byte) []byte { h := blake3.Sum256(b); return h[:] }))
 		},
+		// NB: crypto.Sha256Hash is SHA3-256 in this code base
 		"github.com/MixinNetwork/mixin/crypto.Sha256Hash": func(p *Path, _ *ssa.Function, a []Value) Value {
-			return Array(p.hashUF("sha256", a[0].(Slice), 32, func(b []byte) []byte { h := sha256.Sum256(b); return h[:] }))
+			return Array(p.hashUF("sha3_256", a[0].(Slice), 32, func(b []byte) []byte { h := sha3.Sum256(b); return h[:] }))
+		},
+		"crypto/sha3.Sum256": func(p *Path, _ *ssa.Function, a []Value) Value {
+			return Array(p.hashUF("sha3_256", a[0].(Slice), 32, func(b []byte) []byte { h := sha3.Sum256(b); return h[:] }))
 		},
 		"crypto/sha256.Sum256": func(p *Path, _ *ssa.Function, a []Value) Value {
 			return Array(p.hashUF("sha256", a[0].(Slice), 32, func(b []byte) []byte { h := sha256.Sum256(b); return h[:] }))
@@ -274,7 +281,13 @@ func sortFuncIntrinsic(p *Path, _ *ssa.Function, a []Value) Value {
 	for i := 1; i < len(s); i++ {
 		for j := i; j > 0; j-- {
 			c := p.callFunction(cmp, []Value{copyVal(s[j-1]), copyVal(s[j])}, nil).(*Term)
-			if !p.branch(p.tb.Slt(p.tb.BV(0, 64), c)) {
+			var gt *Term
+			if c.sort.K == KInt {
+				gt = p.tb.ILt(p.tb.Int(0), c)
+			} else {
+				gt = p.tb.Slt(p.tb.BV(0, 64), c)
+			}
+			if !p.branch(gt) {
 				break
 			}
 			s[j-1], s[j] = s[j], s[j-1]
@@ -289,7 +302,7 @@ func sortSliceIntrinsic(p *Path, _ *ssa.Function, a []Value) Value {
 	less := a[1]
 	for i := 1; i < len(s); i++ {
 		for j := i; j > 0; j-- {
-			c := p.callFunction(less, []Value{p.tb.BV(uint64(j), 64), p.tb.BV(uint64(j-1), 64)}, nil).(*Term)
+			c := p.callFunction(less, []Value{p.i64(uint64(j)), p.i64(uint64(j - 1))}, nil).(*Term)
 			if !p.branch(c) {
 				break
 			}
@@ -305,6 +318,13 @@ func termsOf(s Slice) []*Term {
 		out[i] = v.(*Term)
 	}
 	return out
+}
+
+func (p *Path) freshInS(kind string, w int, signed bool) Value {
+	if p.intW(w) {
+		return p.freshIntVar(kind, w, signed)
+	}
+	return p.freshIn(kind, w)
 }
 
 func (p *Path) freshIn(kind string, w int) Value {
@@ -348,10 +368,13 @@ func (p *Path) catch(f Value) (res Value) {
 func (p *Path) ufBytes(name string, n int, args Slice) Slice {
 	tb := p.tb
 	var ats []*Term
+	var argBytes []*Term
 	sig := name
 	for _, a := range args {
 		bs := termsOf(a.(Slice))
 		sig += fmt.Sprintf("_%d", len(bs))
+		argBytes = append(argBytes, tb.BV(uint64(len(bs)&0xff), 8)) // length separator (mirrored in rt_replay)
+		argBytes = append(argBytes, bs...)
 		if len(bs) > 0 {
 			ats = append(ats, tb.Concat(bs...))
 		}
@@ -363,7 +386,7 @@ func (p *Path) ufBytes(name string, n int, args Slice) Slice {
 		ts[i] = tb.Extract(app, 8*(n-i)-1, 8*(n-i-1))
 		out[i] = ts[i]
 	}
-	p.addInput("uf", name, ts...)
+	p.inputs = append(p.inputs, InputRec{Kind: "uf", Label: name, Terms: ts, Args: argBytes})
 	return out
 }
 
@@ -412,3 +435,11 @@ func (p *Path) sprintf(format Str, args Slice) Value {
 }
 
 var _ = types.Typ
+
+// termInt64: value of a constant Go-int term in either encoding.
+func termInt64(t *Term) int64 {
+	if t.sort.K == KInt {
+		return t.val.Int64()
+	}
+	return t.Signed().Int64()
+}
